@@ -287,6 +287,11 @@ void TopologyKernel::reorder_incident_halffaces(EdgeHandle _eh) {
      * will address the related entities in an arbitrary fashion.
      */
 
+    // The ordering lives in the edge incidences and is derived from the
+    // face incidences: without both there is nothing to reorder.
+    if(!has_edge_bottom_up_incidences() || !has_face_bottom_up_incidences())
+        return;
+
     HalfEdgeHandle heh = halfedge_handle(_eh, 0);
     assert((size_t)heh.idx() < incident_hfs_per_he_.size());
     auto &incident_hfs = incident_hfs_per_he_[heh];
